@@ -406,6 +406,13 @@ def exhaustive_small():
     # quote is not a multiple of the length unit, and a valid structure sits at offset 128
     ops.append(f"parse ICMP {hexs(icmp_error(r, ext_structure(r, [ext_object(r, 1, 1, bytes(5))]), 128, 33, t=11))}")
     ops.append(f"parse ICMPv6 {hexs(icmp6_error(r, ext_structure(r, [ext_object(r, 1, 1, bytes(4))]), 128, 17))}")
+    # regressions of the defects fixed in this family (known_findings.d/wire_icmp.jsonl): a structure whose word sum is
+    # exactly 0x10000 with the RFC 1071 checksum and with the checksum the unfolded test used to accept (KF-C03-Icmp-1);
+    # a bare extension header with version 3 (KF-C03-Icmp-2)
+    quote = bytes(range(128))
+    ops.append(f"parse ICMP {hexs(with_icmp_checksum(icmp_header(11, 0, bytes(4)) + quote + bytes.fromhex('2000fffe00080101dff60000')))}")
+    ops.append(f"parse ICMP {hexs(with_icmp_checksum(icmp_header(11, 0, bytes(4)) + quote + bytes.fromhex('2000ffff00080101dff60000')))}")
+    ops.append(f"parse ICMPv6 {hexs(icmp6_hdr(1, 0, bytes(4)) + quote + bytes.fromhex('3000cfff'))}")
     # every ND option length byte on a 40-byte option area
     for l in range(256):
         ops.append(f"parse ICMPv6 {hexs(icmp6_hdr(133, 0, bytes(4)) + bytes([1, l]) + bytes(range(38)))}")
@@ -705,13 +712,27 @@ def prog_under_ip(rng, have_ip, have_ip6):
     return ["push IP"] + [l.replace("set 0 ", "set 1 ") for l in inner]
 
 
+def running_property():
+    import re, sys
+    for a in sys.argv[1:]:
+        if re.fullmatch(r"C0[1-4]", a):
+            return a
+    return None
+
+
 def known_finding_probes():
     """programs that reproduce the family's known findings on every run"""
     return [
         # KF-C04-Icmp-1: a raw option whose data does not complete the option to a multiple of 8 octets
         "new", "push ICMPv6 133", "set 0 add_option 1 010203", "show",
         "new", "push ICMPv6 135", "set 0 nonce 0102030405060708", "show",
-    ]
+        # regression: KF-C04-Icmp-1 (rsa_signature padding)
+        "new", "push ICMPv6 135", "set 0 rsa_signature 860dc55191a26bdeecc6bde36d5f726a f9eebd", "show",
+    ] + (
+        # regression of KF-C02-Icmp-1 (extensions behind a timestamp header overwrote the payload).  Such a message cannot
+        # be parsed back with its extensions (RFC 4884 does not extend timestamps), so it is a C02 program only
+        ["new", "push ICMP 13", "set 0 original_timestamp 16909060", "set 0 add_extension 1 1 aabbccdd",
+         "push RawPDU " + bytes(range(120)).hex(), "show"] if running_property() == "C02" else [])
 
 
 BUILD_GENS = [(prog_icmp, 5), (prog_icmp6_nd, 5), (prog_icmp6_mld, 3), (prog_icmp6_other, 4)]
